@@ -24,6 +24,8 @@ def normT (t : List (List Char × List Char)) (k : List Char) : List Char :=
   | some v => v
   | none => Char.ofNat 0 :: k
 
+def decOptBool (s : String) : Option Bool := if s == "-" then none else some (s == "1")
+
 def encSpan (sp : Span) : String :=
   toString sp.start ++ "," ++ toString sp.stop ++ "," ++ encStr sp.style
 
@@ -58,6 +60,21 @@ def handlers : List (String × (List String → String)) := [
         isSpace := pyIsSpace,
         sortSpans := decBool sortFlag }
       encRendered (render cfg (decStr s))
+    | _ => "bad-args"),
+  -- Console(emoji=ce, markup=cm, highlight=False).render_str(text, emoji=e, markup=m)
+  ("mk_render_str", fun a => match a with
+    | [s, ce, cm, e, m, normTbl, emojiTbl] =>
+      let cfg : Cfg := { norm := normT (decTable normTbl), emoji := some (lookupT (decTable emojiTbl)),
+                         isSpace := pyIsSpace, sortSpans := false }
+      encRendered (renderStr cfg { emoji := decBool ce, markup := decBool cm } (decOptBool e) (decOptBool m) (decStr s))
+    | _ => "bad-args"),
+  -- … ._collect_renderables(strs, sep, end, emoji=e, markup=m, highlight=False)[0]
+  ("mk_print", fun a => match a with
+    | [strs, sep, ce, cm, e, m, normTbl, emojiTbl] =>
+      let cfg : Cfg := { norm := normT (decTable normTbl), emoji := some (lookupT (decTable emojiTbl)),
+                         isSpace := pyIsSpace, sortSpans := false }
+      encRendered (printStrs cfg { emoji := decBool ce, markup := decBool cm } (decOptBool e) (decOptBool m)
+        (decStr sep) (decStrList strs))
     | _ => "bad-args")
 ]
 
